@@ -258,6 +258,9 @@ macro_rules! cache_check {
         // accidentally evaluating arguments multiple times. Here we force eager evaluation.
         let start = $start;
 
+        #[cfg(feature = "verif")]
+        crate::verif_hooks::parse_call();
+
         // Do the cache lookup.
         let cache_key = (Nonterminal::$nonterminal, start);
         if let Some(result) = $cache.get(&cache_key) {
